@@ -27,7 +27,7 @@ TOL = 1e-7
 
 
 def gen_cases(tier: str, seed: int):
-    n = {"quick": 900, "thorough": 12000}[tier]
+    n = {"quick": 900, "thorough": 120000}[tier]
     maxdepth = {"quick": 4, "thorough": 8}[tier]
     kinds = list(matgen.ALL_LEAVES)
     yield {"kind": "implicit", "seed": [seed, 0]}
